@@ -88,9 +88,51 @@ pub fn core_yaml(rule: &R, utils: &BTreeMap<String, R>) -> String {
   serde_json::to_string(&Value::Object(m)).unwrap()
 }
 
+/// global utilities carrying the ids of the document's local utilities (a local utility shadows a global one of
+/// the same id completely).  Only for documents whose utilities refer to each other in ways the registration
+/// order follows: otherwise the known C01 defect (kind caches built from the global rule) would show up here.
+fn shadowed_globals(yaml: &str, lang: SupportLang) -> Option<ast_grep_config::GlobalRules<SupportLang>> {
+  fn untracked(v: &Value, below_relation: bool, found: &mut bool) {
+    match v {
+      Value::Object(m) => {
+        for (k, x) in m {
+          if k == "matches" && below_relation {
+            *found = true;
+          }
+          untracked(x, below_relation || matches!(k.as_str(), "has" | "inside" | "follows" | "precedes" | "stopBy"), found);
+        }
+      }
+      Value::Array(a) => a.iter().for_each(|x| untracked(x, below_relation, found)),
+      _ => {}
+    }
+  }
+  if crate::rng::hash_str(yaml) % 2 == 0 {
+    return None;
+  }
+  let doc: Value = serde_json::from_str(yaml).ok()?;
+  let utils = doc.get("utils")?.as_object()?;
+  let mut bad = yaml.contains("\"UR\"");
+  untracked(doc.get("utils")?, false, &mut bad);
+  if bad || utils.is_empty() {
+    return None;
+  }
+  // the decoy matches every named node of some frequent kinds: anything the local utility rejects would be let in
+  let lname = corpus::lang_name(lang);
+  let mut sers = vec![];
+  for n in utils.keys() {
+    let g = serde_json::to_string(&json!({"id": n, "language": lname, "rule": {"regex": "."}})).ok()?;
+    sers.push(ast_grep_config::from_str(&g).ok()?);
+  }
+  DeserializeEnv::parse_global_utils(sers).ok()
+}
+
 pub fn build_core(yaml: &str, lang: SupportLang) -> Result<RuleCore<SupportLang>, String> {
   let ser: SerializableRuleCore = ast_grep_config::from_str(yaml).map_err(|e| format!("yaml: {e}"))?;
-  ser.get_matcher(DeserializeEnv::new(lang)).map_err(|e| format!("{e}: {}", std::error::Error::source(&e).map(|s| s.to_string()).unwrap_or_default()))
+  let env = match shadowed_globals(yaml, lang) {
+    Some(g) => DeserializeEnv::new(lang).with_globals(&g),
+    None => DeserializeEnv::new(lang),
+  };
+  ser.get_matcher(env).map_err(|e| format!("{e}: {}", std::error::Error::source(&e).map(|s| s.to_string()).unwrap_or_default()))
 }
 
 /// one-step simplifications of a rule tree (for shrinking a disagreement)
